@@ -34,6 +34,7 @@ pub const F_EXTREMES: u32 = 1 << 22;
 pub const F_WILD: u32 = 1 << 23;
 pub const F_SAME_FIELD: u32 = 1 << 24;
 pub const F_QUOTING: u32 = 1 << 25;
+pub const F_REUSE: u32 = 1 << 26;
 
 #[derive(Clone, Debug)]
 pub struct Knobs {
@@ -88,6 +89,9 @@ impl Knobs {
         }
         if rng.chance(2, 10) {
             feat |= F_QUOTING;
+        }
+        if rng.chance(4, 10) {
+            feat |= F_REUSE;
         }
         Knobs {
             feat,
@@ -158,6 +162,16 @@ fn gen_word(rng: &mut Rng, k: &Knobs) -> String {
     }
 }
 
+const RE_PREFIX: [&str; 10] = ["", "", "", ".*", ".+", ".?", "^", "^.*", ".*.*", "(?i)"];
+const RE_SUFFIX: [&str; 12] = ["", "", "", ".*", ".+", ".?", "$", ".*$", ".{0,2}", "+", ".*.*", "?"];
+const RE_CORE: [&str; 10] = ["foo", "bar", "o", "fo", "ba[rz]", "(foo|bar)", "[a-c]", "\\d", "x", "b.r"];
+
+/// A regex composed from a prefix, a core and a suffix; the interesting part for the optimiser is
+/// what surrounds the core (leading / trailing wildcards of several kinds).
+fn compose_regex(rng: &mut Rng) -> String {
+    format!("{}{}{}", rng.pick(&RE_PREFIX), rng.pick(&RE_CORE), rng.pick(&RE_SUFFIX))
+}
+
 /// A string pattern value.
 fn gen_pattern(rng: &mut Rng, k: &Knobs) -> String {
     let mut kinds = vec![0u32; 0];
@@ -175,7 +189,13 @@ fn gen_pattern(rng: &mut Rng, k: &Knobs) -> String {
             2 => format!("*{}*", w),
             _ => "*".to_owned(),
         },
-        2 => format!("?{}", rng.pick(&REGEXES).0),
+        2 => {
+            if rng.chance(1, 2) {
+                format!("?{}", rng.pick(&REGEXES).0)
+            } else {
+                format!("?{}", compose_regex(rng))
+            }
+        }
         3 => {
             if rng.chance(1, 2) {
                 format!("\"{}\"", w)
@@ -379,6 +399,20 @@ fn gen_mapping(rng: &mut Rng, k: &Knobs, depth: usize, _under: Option<&str>) -> 
             gen_scalar_value(rng, k, km)
         };
         last_field = Some(field);
+        // sibling entries with identical values (ties in every ordering the engine derives from values)
+        let value = match (k.has(F_REUSE) && rng.chance(1, 3) && km == KeyMod::None, m.iter().next()) {
+            (true, Some((k0, v0))) if !nested && split_key(k0.as_str().unwrap_or("")).0.is_empty() && !v0.is_mapping() => {
+                match v0 {
+                    // the same text under the other case flag
+                    Yaml::String(p) if rng.chance(1, 2) => match p.strip_prefix('i') {
+                        Some(rest) if !rest.is_empty() => ystr(rest),
+                        _ => ystr(&format!("i{}", p)),
+                    },
+                    other => other.clone(),
+                }
+            }
+            _ => value,
+        };
         m.insert(ystr(&key), value);
     }
     m
@@ -387,11 +421,31 @@ fn gen_mapping(rng: &mut Rng, k: &Knobs, depth: usize, _under: Option<&str>) -> 
 fn gen_identifier(rng: &mut Rng, k: &Knobs) -> Yaml {
     if k.has(F_SEQ_IDENT) && rng.chance(1, 3) {
         let n = 1 + rng.below(3);
-        Yaml::Sequence(
-            (0..n)
-                .map(|_| Yaml::Mapping(gen_mapping(rng, k, 0, None)))
-                .collect(),
-        )
+        let mut maps: Vec<Mapping> = vec![];
+        for _ in 0..n {
+            let mut m = gen_mapping(rng, k, 0, None);
+            if k.has(F_REUSE) && rng.chance(1, 2) {
+                if let Some(prev) = maps.last() {
+                    if let (Some((pk, pv)), true) = (prev.iter().next(), m.len() == 1) {
+                        let (md, _) = split_key(pk.as_str().unwrap_or(""));
+                        if md.is_empty() && !pv.is_mapping() {
+                            let newkey = gen_field(rng, k, None);
+                            m = Mapping::new();
+                            let v = match pv {
+                                Yaml::String(p) if rng.chance(1, 2) => match p.strip_prefix('i') {
+                                    Some(rest) if !rest.is_empty() => ystr(rest),
+                                    _ => ystr(&format!("i{}", p)),
+                                },
+                                other => other.clone(),
+                            };
+                            m.insert(ystr(&newkey), v);
+                        }
+                    }
+                }
+            }
+            maps.push(m);
+        }
+        Yaml::Sequence(maps.into_iter().map(Yaml::Mapping).collect())
     } else {
         Yaml::Mapping(gen_mapping(rng, k, 0, None))
     }
@@ -480,8 +534,122 @@ fn gen_cond(rng: &mut Rng, k: &Knobs, idents: &[String], depth: usize) -> String
     }
 }
 
+const FAMILY: [&str; 12] = ["foo", "oob", "foobar", "bar", "ob", "o", "fo", "ar", "barbaz", "baz", "oba", "rba"];
+
+fn family_pattern(rng: &mut Rng, kind: usize, icase: bool) -> String {
+    let w = *rng.pick(&FAMILY);
+    let body = match kind {
+        0 => format!("*{}*", w),
+        1 => format!("{}*", w),
+        2 => format!("*{}", w),
+        3 => w.to_owned(),
+        _ => format!("?{}", w),
+    };
+    if icase {
+        format!("i{}", body)
+    } else {
+        body
+    }
+}
+
+/// Rules shaped to make the optimiser merge things: several identifiers over very few fields
+/// (optionally nested under one key) joined by one operator, or one sequence identifier whose
+/// entries address one field with overlapping needles, counted by all()/of().
+fn gen_structured(rng: &mut Rng, k: &Knobs) -> Yaml {
+    let mut det = Mapping::new();
+    let cond;
+    if rng.chance(1, 3) {
+        // T3: one pattern text under both case flags, on several fields, or-ed
+        let n = 2 + rng.below(2);
+        let kind = if rng.chance(2, 3) { 4 } else { rng.below(4) };
+        let base = family_pattern(rng, kind, false);
+        let guard = rng.chance(1, 2);
+        let mut names = vec![];
+        for i in 0..n {
+            let name = IDENT_NAMES[i].to_owned();
+            let mut m = Mapping::new();
+            if guard {
+                m.insert(ystr("e"), ystr(["strict", "relaxed", "other"][i % 3]));
+            }
+            let f = if rng.chance(1, 2) { FIELDS[0] } else { FIELDS[i % 3] };
+            m.insert(ystr(f), ystr(&if i % 2 == 1 { format!("i{}", base) } else { base.clone() }));
+            det.insert(ystr(&name), Yaml::Mapping(m));
+            names.push(name);
+        }
+        cond = names.join(" or ");
+    } else if rng.chance(1, 2) {
+        // T1: chains
+        let n = 3 + rng.below(2);
+        let fields = [*rng.pick(&FIELDS), *rng.pick(&FIELDS)];
+        let nest = *rng.pick(&NEST_FIELDS);
+        let nest_all = rng.chance(1, 2);
+        let mut names = vec![];
+        for i in 0..n {
+            let name = IDENT_NAMES[i].to_owned();
+            let mut m = Mapping::new();
+            let ne = 1 + rng.below(2);
+            for _ in 0..ne {
+                let f = *rng.pick(&fields);
+                let v = if rng.chance(1, 5) {
+                    gen_scalar_value(rng, k, KeyMod::None)
+                } else {
+                    let (kind, ic) = (rng.below(5), rng.chance(1, 5));
+                    ystr(&family_pattern(rng, kind, ic))
+                };
+                m.insert(ystr(f), v);
+            }
+            let body = if nest_all || rng.chance(1, 3) {
+                let mut outer = Mapping::new();
+                outer.insert(ystr(nest), Yaml::Mapping(m));
+                outer
+            } else {
+                m
+            };
+            det.insert(ystr(&name), Yaml::Mapping(body));
+            names.push(name);
+        }
+        let op = if rng.chance(1, 2) { " and " } else { " or " };
+        let mut c = names.join(op);
+        if rng.chance(1, 4) {
+            c = format!("not ({})", c);
+        }
+        cond = c;
+    } else {
+        // T2: one field, overlapping needles, counted
+        let f = *rng.pick(&FIELDS);
+        let n = 2 + rng.below(4);
+        let uniform_kind = rng.below(5);
+        let mixed = rng.chance(1, 4);
+        let icase = rng.chance(1, 4);
+        let mut entries = vec![];
+        for _ in 0..n {
+            let kind = if mixed { rng.below(5) } else { uniform_kind };
+            let mut m = Mapping::new();
+            let ic = if mixed { rng.chance(1, 3) } else { icase };
+            m.insert(ystr(f), ystr(&family_pattern(rng, kind, ic)));
+            entries.push(Yaml::Mapping(m));
+        }
+        det.insert(ystr("A"), Yaml::Sequence(entries));
+        cond = match rng.below(6) {
+            0 => "A".to_owned(),
+            1 => "not A".to_owned(),
+            2 | 3 => "all(A)".to_owned(),
+            _ => format!("of(A, {})", rng.below(n + 1)),
+        };
+    }
+    det.insert(ystr("condition"), ystr(&cond));
+    let mut rule = Mapping::new();
+    rule.insert(ystr("detection"), Yaml::Mapping(det));
+    rule.insert(ystr("true_positives"), Yaml::Sequence(vec![]));
+    rule.insert(ystr("true_negatives"), Yaml::Sequence(vec![]));
+    Yaml::Mapping(rule)
+}
+
 /// A complete rule as a YAML value (detection + empty example lists).
 pub fn gen_rule(rng: &mut Rng, k: &Knobs) -> Yaml {
+    if rng.chance(1, 5) {
+        return gen_structured(rng, k);
+    }
     let n = 1 + rng.below(k.max_idents);
     let mut names: Vec<String> = vec![];
     let mut pool: Vec<&str> = IDENT_NAMES.to_vec();
@@ -589,6 +757,17 @@ fn pattern_values(p: &str, out: &mut Vec<MVal>) {
         }
         let lit: String = re.chars().filter(|c| c.is_alphanumeric()).collect();
         out.push(s(&lit));
+        for w in ["foo", "bar", "baz", "fo", "o", "x", "b", "a", "7"] {
+            if re.contains(w) || re.contains("[a-c]") || re.contains("\\d") || re.contains("ba[rz]") {
+                out.push(s(w));
+                out.push(s(&w.to_uppercase()));
+                out.push(s(&format!("{}x", w)));
+                out.push(s(&format!("x{}", w)));
+                out.push(s(&format!("X{}X", w.to_uppercase())));
+                out.push(s(&format!("{}{}", w, w)));
+            }
+        }
+        out.push(s(""));
         return;
     }
     for op in [">=", "<=", ">", "<", "="] {
@@ -614,6 +793,20 @@ fn pattern_values(p: &str, out: &mut Vec<MVal>) {
     }
     out.push(s(p));
     out.push(s(""));
+    // multi-byte neighbours: byte offsets derived from needle lengths land inside characters
+    let core = body.trim_matches('*').trim_matches('"').trim_matches('\'');
+    for (i, mb) in ["é", "日本語", "ß", "🦀", "añ"].iter().enumerate() {
+        match (core.len() + i) % 3 {
+            0 => out.push(s(&format!("{}{}", mb, core))),
+            1 => out.push(s(&format!("{}{}", core, mb))),
+            _ => {
+                let mid = core.char_indices().nth(core.chars().count() / 2).map(|(i, _)| i).unwrap_or(0);
+                out.push(s(&format!("{}{}{}", &core[..mid], mb, &core[mid..])));
+            }
+        }
+    }
+    out.push(s("straße 12"));
+    out.push(s("日本語"));
     if let Ok(i) = p.parse::<i64>() {
         out.push(MVal::Int(i));
     }
@@ -731,7 +924,52 @@ pub fn condition_of(rule: &Yaml) -> Option<&str> {
     detection_of(rule)?.get("condition")?.as_str()
 }
 
+/// Values that satisfy several predicates of one field at once: concatenations and overlaps of
+/// the short strings already collected for it.
+fn add_combinations(node: &mut Schema) {
+    let cores: Vec<String> = node
+        .values
+        .iter()
+        .filter_map(|v| match v {
+            MVal::Str(s) if !s.is_empty() && s.len() <= 6 && s.chars().all(|c| c.is_ascii_alphanumeric()) => Some(s.clone()),
+            _ => None,
+        })
+        .take(6)
+        .collect();
+    let mut extra = vec![];
+    for a in &cores {
+        for b in &cores {
+            if a != b {
+                extra.push(format!("{}{}", a, b));
+                // overlap merge: longest suffix of a that is a prefix of b
+                for n in (1..a.len().min(b.len())).rev() {
+                    if a.ends_with(&b[..n]) {
+                        extra.push(format!("{}{}", a, &b[n..]));
+                        break;
+                    }
+                }
+            }
+        }
+    }
+    for e in extra.into_iter().take(14) {
+        let v = MVal::Str(e);
+        if node.values.len() < 64 && !node.values.contains(&v) {
+            node.values.push(v);
+        }
+    }
+    for (_, c) in node.children.iter_mut() {
+        add_combinations(c);
+    }
+}
+
 pub fn derive_schema(rule: &Yaml) -> Schema {
+    let root = derive_schema_raw(rule);
+    let mut root = root;
+    add_combinations(&mut root);
+    root
+}
+
+fn derive_schema_raw(rule: &Yaml) -> Schema {
     let mut root = Schema::default();
     if let Some(det) = detection_of(rule) {
         for (k, v) in det {
@@ -781,7 +1019,13 @@ pub fn random_scalar(rng: &mut Rng, k: &Knobs) -> MVal {
         4 => MVal::float(*rng.pick(&FLOATS)),
         5 => MVal::Str((*rng.pick(&WORDS)).to_owned()),
         6 => MVal::Str(String::new()),
-        7 => MVal::Str(format!("{}{}", rng.pick(&WORDS), rng.pick(&WORDS))),
+        7 => {
+            if rng.chance(1, 3) {
+                MVal::Str((*rng.pick(&["é", "日本語", "straße", "añb", "🦀x", "éé", "aé", "abé", "abcé", "администратор"])).to_owned())
+            } else {
+                MVal::Str(format!("{}{}", rng.pick(&WORDS), rng.pick(&WORDS)))
+            }
+        }
         8 => MVal::UInt(u64::MAX),
         9 => MVal::Int(i64::MIN),
         10 => MVal::UInt(i64::MAX as u64 + 1),
